@@ -143,6 +143,20 @@ func C09(run *report.Run) {
 		pl.DiscProp, pl.VariantKeys, pl.Ambiguous = discInfo(c.Spec)
 		add(c.ID, c.Attrs, c.Spec, pl, "")
 	}
+	// (6) a template that ends in a slash after a variable, next to its twin without the slash: the client
+	// must address exactly the operation it was called for
+	for _, judged := range []string{"/t/{v}/", "/t/{v}"} {
+		for _, k := range []string{"string", "int32"} {
+			tf := leafTypes[k]
+			sp := &spec.Spec{}
+			for _, t := range []string{"/t/{v}", "/t/{v}/"} {
+				sp.Paths = append(sp.Paths, &spec.PathItem{Template: t, Params: []*spec.Param{{Name: "v", In: "path", Required: true, Schema: spec.TF(tf[0], tf[1])}},
+					Ops: []*spec.Op{{Method: "GET", Responses: []*spec.Response{{Status: "default", Desc: "d"}}}}})
+			}
+			id := fmt.Sprintf("slashtwin[judged=%s,kind=%s]", judged, k)
+			add(id, map[string]string{"fam": "slashtwin", "judged": judged}, sp, &drv.C09Payload{Method: "GET", Template: judged, Params: []drv.ParamDecl{{Name: "v", In: "path", Required: true, Type: tf[0], Format: tf[1]}}}, "")
+		}
+	}
 	// (5) credentials travel as request headers: the client must put them where the server's security
 	// middleware and Parse() read them (scheme kinds × header-name shapes × document/operation level ×
 	// with or without an ordinary header parameter next to them)
